@@ -174,6 +174,9 @@ def gen_spec(rng, nmax=12):
     m = rng.choice([1, 1, 2, 3, 4])
     t = rng.randint(1, 4)
     ard = rng.random() < 0.5 and d > 1 or (d == 1 and rng.random() < 0.3)
+    if rng.random() < 0.04:
+        # high input dimension with ARD: parameter names inv_bw10.. (the dict interface must keep them in place)
+        d, ard, n = rng.randint(11, 14), True, min(n, 4)
     nib = d if ard else 1
     box = rng.random() < 0.25   # values across the full box constraints, otherwise a typical range
     ibs = [loguniform(rng, 1e-4, 100) if box else loguniform(rng, 0.1, 10) for _ in range(nib)]
@@ -323,6 +326,14 @@ def run_case(ctx, spec, cases_k, cases_g, meta, kmeta, jit_cases, jit_meta):
     cs = float(got["covariance_scale"])
     ibs = [float(got["inv_bw"])] if "inv_bw" in got else [float(got["inv_bw%d" % k_]) for k_ in range(d)]
     ib_full = ibs if len(ibs) == d else [ibs[0]] * d
+    want = {"covariance_scale": spec["cs"]}
+    want.update({"inv_bw": spec["ibs"][0]} if "inv_bw" in got else
+                {"inv_bw%d" % k_: v for k_, v in enumerate(spec["ibs"])})
+    bad_p = [k_ for k_, v in want.items() if k_ not in got or not abs(float(got[k_]) - v) <= 16 * EPS * abs(v)]
+    if bad_p or len(got) != len(want):
+        viol("Matern52.set_params / get_params round trip changes %s (requested %s, read back %s)"
+             % (bad_p[:3], [want[k_] for k_ in bad_p[:3]], [float(got.get(k_, float("nan"))) for k_ in bad_p[:3]]),
+             "param_roundtrip", ard=spec["ard"], d=d)
     mval = 0.0 if spec["mean"] is None else float(meanf.get_mean_value())
     cs2 = 1.0 if spec["cs2"] is None else float(spec["cs2"])
     kernel_arg = kern if spec["cs2"] is None else (kern, np.array([spec["cs2"]]))
@@ -643,7 +654,7 @@ STEPS = ["chk_chol", "chk_predict", "chk_nlml", "chk_cov", "chk_upd", "chk_su"]
 
 
 def run(ctx, replay=None):
-    ctx.rule = ("cases: random GP regression problems (n 1..12, d 1..4, inputs in the unit cube incl. duplicates, "
+    ctx.rule = ("cases: random GP regression problems (n 1..12, d 1..4 and (4%) d 11..14 with ARD, inputs in the unit cube incl. duplicates, "
                 "near-duplicates and grids, 1..4 target/fantasy columns, 1..4 test points incl. training points, "
                 "Matern-5/2 with/without ARD, plain kernel or (kernel, covariance_scale) tuple, zero/scalar mean, "
                 "hyper-parameters log-uniform over typical ranges and (25%) over their full box constraints); every "
